@@ -54,11 +54,65 @@ def strip(ts):
     return ts.replace(extras={k: v for k, v in (ts.extras or {}).items()}) if ts.extras is not None else ts
 
 
+def _generator_class(env):
+    g = getattr(env, "generator", None)
+    return type(g).__name__ if g is not None else "-"
+
+
+def aliasing(kit, cfg, r):
+    """Values returned EARLIER must not change (or become unusable) because of LATER calls: an eager reset and an eager step are
+    kept, then reset / step are traced again under fresh jit and vmap wrappers on the same environment object, then the kept values
+    are read again.  An environment (generator, reward function, observer) that hands out an object it also keeps and writes to
+    -- e.g. a generator returning its stored State, whose fields reset then assigns -- is exposed here: the kept value changes, or
+    holds leaked tracers (reading it raises)."""
+    import jax
+    import jax.numpy as jnp
+    name = kit.name
+    env = cfg["make"]()          # an environment object of its own: nothing else has been traced through it yet
+    key = jax.random.PRNGKey(kit.seed * 31 + 5)
+    r.evaluations += 1
+    r.count("mode:aliasing:" + _generator_class(env))
+    try:
+        s0, ts0 = env.reset(key)                                  # op-by-op
+        snap0 = snap((s0, ts0.observation, ts0.reward, ts0.discount, ts0.step_type))
+        a = env.action_spec.generate_value()
+        keys = jax.random.split(key, 2)
+        jax.jit(env.reset)(key)                                   # traces reset
+        jax.jit(jax.vmap(env.reset))(keys)                        # traces it again under vmap
+        s1, ts1 = jax.jit(env.step)(s0, a)
+        jax.jit(env.reset)(jax.random.PRNGKey(7))
+        again = snap((s0, ts0.observation, ts0.reward, ts0.discount, ts0.step_type))
+        s2, ts2 = env.reset(key)                                  # the same call once more, op-by-op
+        d = close((s2, ts2.observation), (jax.tree_util.tree_map(jnp.asarray, s0), ts0.observation))
+    except Exception as e:                                        # e.g. UnexpectedTracerError: a kept value holds leaked tracers
+        kit.fail(["C02"], "%s: a value returned by an earlier reset became unusable after later (traced) calls on the same environment: %s"
+                 % (name, type(e).__name__), dict(cfg=cfg["label"], op="aliasing", generator=_generator_class(env)),
+                 dict(error=str(e)[:300], seed=kit.seed))
+        return
+    if again != snap0:
+        kit.fail(["C02"], "%s: a value returned by an earlier reset was changed by later calls on the same environment" % name,
+                 dict(cfg=cfg["label"], op="aliasing", generator=_generator_class(env)), dict(seed=kit.seed))
+    if d:
+        kit.fail(["C02"], "%s: the same reset call gives a different result after other calls" % name,
+                 dict(cfg=cfg["label"], op="aliasing", generator=_generator_class(env)), dict(diff=d, seed=kit.seed))
+
+
 def analyze(kit):
     import jax
     import jax.numpy as jnp
     name = kit.name
     r = kit.res["C02"]
+    # aliasing between returned values and hidden state: one configuration per distinct generator class
+    seen = set()
+    for cfg in sorted(kit.configs(), key=lambda c: c["steps"]):
+        try:
+            gc = _generator_class(kit.env(cfg))
+        except Exception:
+            continue
+        if gc in seen:
+            continue
+        seen.add(gc)
+        aliasing(kit, cfg, r)
     cfgs = [c for c in kit.configs() if c["steps"] >= 4]
     cfgs.sort(key=lambda c: c["steps"])
     cfgs = cfgs[:1] + (cfgs[-1:] if len(cfgs) > 1 and kit.tier != "quick" else [])
